@@ -147,7 +147,7 @@ CoreNames(core) == { core[i] : i \in DOMAIN core }
 CoreNoRepeat(core) == \A i, j \in DOMAIN core : i # j => core[i] # core[j]
 CoreCurrent(core)  == CoreNames(core) \subseteq TopNames
 CoreSet(ns) == Unnamed \cup { NamedT(n) : n \in ns }
-CoreUnsat(core, h) == SatStatus(tt, CoreSet(CoreNames(core)), Base, h, dom) # "sat"
+CoreUnsat(core, h) == ~Witness(tt, CoreSet(CoreNames(core)), Base, h, dom)
 \* hm[i] : hints for the core without its i-th name
 CoreIrreducible(core, hm) ==
   \A i \in DOMAIN core :
@@ -160,27 +160,29 @@ FullCoreCurrent(fs, fx) ==
   \A i \in DOMAIN fs :
      \/ fs[i] \in Active
      \/ { fx[i][j].a : j \in DOMAIN fx[i] } # Active          \* comparison incomplete: no verdict
-     \/ \E j \in DOMAIN fx[i] : SatStatus(tt, {fx[i][j].x}, Base, fx[i][j].h, dom) # "sat"
-FullCoreUnsat(fs, h) == SatStatus(tt, { fs[i] : i \in DOMAIN fs }, Base, h, dom) # "sat"
+     \/ \E j \in DOMAIN fx[i] : ~CandWitness(tt, {fx[i][j].x}, Base, fx[i][j].h)
+FullCoreUnsat(fs, h) == ~Witness(tt, { fs[i] : i \in DOMAIN fs }, Base, h, dom)
 FullCoreIrreducible(fs, hm) ==
   \A i \in DOMAIN fs :
      SatStatus(tt, { fs[j] : j \in (DOMAIN fs) \ {i} }, Base, hm[i], dom) # "unsat"
 
 \* C08 / C09 / C21: interpolation.  A group is a sequence of names.
-GroupLegal(g) == \A i \in DOMAIN g : g[i] \in TopNames
-GroupSet(g) == { NamedT(g[i]) : i \in DOMAIN g }
+\* a group member is a name (of a top-level assertion, or of a subterm that is itself asserted)
+\* whose term is a current assertion
+GroupLegal(g) == \A i \in DOMAIN g : g[i] \in DOMAIN names /\ names[g[i]].t \in Active
+GroupSet(g) == { names[g[i]].t : i \in DOMAIN g }
 RECURSIVE PrefixSet(_, _)
 PrefixSet(groups, j) == IF j = 0 THEN {} ELSE GroupSet(groups[j]) \cup PrefixSet(groups, j - 1)
 ASide(groups, j) == PrefixSet(groups, j)
 BSide(groups, j) == Active \ ASide(groups, j)
 SymsIn(F) == UNION { FreeSyms(tt, f) : f \in F }
 \* itp, nitp: the interpolant and its negation as terms
-ItpImplied(A, nitp, h)  == SatStatus(tt, A \cup {nitp}, Base, h, dom) # "sat"
-ItpRefutesB(B, itp, h)  == SatStatus(tt, B \cup {itp}, Base, h, dom) # "sat"
+ItpImplied(A, nitp, h)  == ~CandWitness(tt, A \cup {nitp}, Base, h)
+ItpRefutesB(B, itp, h)  == ~CandWitness(tt, B \cup {itp}, Base, h)
 ItpShared(A, B, itp)    == (FreeSyms(tt, itp) \ DOMAIN Base) \subseteq
                               (SymsOf(tt, A, Base) \cap SymsOf(tt, B, Base))
 \* path property: I_j /\ G_{j+1} => I_{j+1}
-PathStep(itp, G, nitpNext, h) == SatStatus(tt, {itp, nitpNext} \cup G, Base, h, dom) # "sat"
+PathStep(itp, G, nitpNext, h) == ~CandWitness(tt, {itp, nitpNext} \cup G, Base, h)
 
 \* --------------------------------------------------------------- invariants
 TypeOK ==
